@@ -123,12 +123,17 @@ def cases(seed, tier="quick"):
         ("import-mismatch-second-edge", {"zinoma.yml": "name: root\nimports:\n  lib: lib\n  mid: mid\ntargets:\n  a:\n    build: echo hi >> \"$ZLOG\"\n", "lib/zinoma.yml": "name: lib\ntargets:\n  l:\n    build: echo hi >> \"$ZLOG\"\n", "mid/zinoma.yml": "name: mid\nimports:\n  other: ../lib\ntargets:\n  m:\n    build: echo hi >> \"$ZLOG\"\n"}, "a second import edge reaching an already loaded project under a wrong key"),
         ("duplicate-project-names", {"zinoma.yml": "name: root\nimports:\n  x: d1\ntargets:\n  a:\n    build: echo hi >> \"$ZLOG\"\n", "d1/zinoma.yml": "name: x\nimports:\n  x: ../d2\ntargets:\n  t:\n    build: echo d1 >> \"$ZLOG\"\n", "d2/zinoma.yml": "name: x\ntargets:\n  t:\n    build: echo d2 >> \"$ZLOG\"\n"}, "two loaded projects with the same name"),
         ("root-name-duplicated-by-import", {"zinoma.yml": "name: x\nimports:\n  x: d1\ntargets:\n  a:\n    build: echo hi >> \"$ZLOG\"\n", "d1/zinoma.yml": "name: x\ntargets:\n  t:\n    build: echo d1 >> \"$ZLOG\"\n"}, "an imported project carrying the root project's name"),
+        ("aggregate-with-input", {"zinoma.yml": "targets:\n  dep:\n    build: echo hi >> \"$ZLOG\"\n  a:\n    dependencies: [dep]\n    input:\n      - paths: [src]\n"}, "a target with dependencies and input but neither build nor service"),
+        ("aggregate-with-output", {"zinoma.yml": "targets:\n  dep:\n    build: echo hi >> \"$ZLOG\"\n  a:\n    dependencies: [dep]\n    output:\n      - paths: [out]\n"}, "a target with dependencies and output but neither build nor service"),
+        ("service-with-output", {"zinoma.yml": "targets:\n  a:\n    service: sleep 1\n    output:\n      - paths: [out]\n"}, "a service declaring outputs"),
+        ("build-not-a-string", {"zinoma.yml": "targets:\n  a:\n    build: [1, 2]\n"}, "a build script that is not a string"),
+        ("dependencies-not-a-list", {"zinoma.yml": "targets:\n  a:\n    dependencies: dep\n    build: echo hi >> \"$ZLOG\"\n  dep:\n    build: echo hi >> \"$ZLOG\"\n"}, "dependencies that are not a list"),
         ("not-yaml", {"zinoma.yml": "targets: [\n"}, "a file that is not YAML"),
         ("targets-not-map", {"zinoma.yml": "targets: 3\n"}, "targets of the wrong type"),
         ("empty-file", {"zinoma.yml": ""}, "an empty file"),
     ]
     for (n, files, why) in rej14:
-        out.append(C("c14-" + n, rejected("C14", files, [["a"], ["--clean"]], why), why))
+        out.append(C("c14-" + n, rejected(["C14", "C09", "C19"] if "duplicate" in n or "duplicated" in n else "C14", files, [["a"], ["--clean"]], why), why))
     # the same defects in a project imported from outside the root project's tree (sibling directory)
     ok_app = "name: app\nimports:\n  lib: ../lib\ntargets:\n  a:\n    dependencies: [lib::l]\n    build: echo hi >> \"$ZLOG\"\n"
     for (n, libyml, why) in (("unknown-key", "name: lib\ntargets:\n  l:\n    build: echo l >> \"$ZLOG\"\n    colour: blue\n", "an unknown key"), ("two-kinds", "name: lib\ntargets:\n  l:\n    build: echo l >> \"$ZLOG\"\n    service: sleep 1\n", "a target that is both build and service"), ("bad-target-name", "name: lib\ntargets:\n  l:\n    build: echo l >> \"$ZLOG\"\n  b d:\n    build: echo l >> \"$ZLOG\"\n", "an invalid target name"), ("bad-project-name", "name: li b\ntargets:\n  l:\n    build: echo l >> \"$ZLOG\"\n", "an invalid project name"), ("not-yaml", "targets: [\n", "a file that is not YAML"), ("missing-file", None, "a missing zinoma.yml")):
@@ -154,5 +159,8 @@ def cases(seed, tier="quick"):
     three = {"zinoma.yml": yml({"all": {"dependencies": ["liba::build", "libb::build"]}}, name="root", imports={"liba": "liba", "libb": "libb"}), "liba/zinoma.yml": yml({"build": B("a-build")}, name="liba"), "libb/zinoma.yml": yml({"build": B("b-build")}, name="libb")}
     out.append(C("c19-two-imports-same-target-name", accepted_runs("C19", three, ["liba::build", "libb::build"], ["a-build", "b-build"], "liba::build and libb::build are different targets"), "two imports with equal target names"))
     out.append(C("c19-unnamed-root-bare", accepted_runs("C19", {"zinoma.yml": yml({"t": B("t")})}, ["t"], ["t"], "an unnamed root project works with bare names"), "unnamed root"))
+    chain = {"zinoma.yml": yml({"top": B("top", dependencies=["app::mid"])}, name="root", imports={"app": "app"}), "app/zinoma.yml": yml({"mid": B("mid", dependencies=["lib::low"])}, name="app", imports={"lib": "../vendor/lib"}), "vendor/lib/zinoma.yml": yml({"low": B("low"), "extra": B("extra")}, name="lib")}
+    out.append(C("c19-transitive-import-qualified", accepted_runs("C19", chain, ["lib::extra"], ["extra"], "a target of a project that is only imported by an imported project can be requested as project::target"), "every target of every loaded project can be requested"))
+    out.append(C("c19-transitive-import-all", accepted_runs("C19", chain, ["top", "lib::low", "app::mid"], ["top", "mid", "low"], "qualified names of three loaded projects in one request"), "names across an import chain"))
     out.append(C("c19-from-own-dir", accepted_runs("C19", two, ["t"], ["lib-t", "lib-helper"], "from lib's own directory the bare name is lib's target", cwd="lib"), "imported project as root"))
     return out
